@@ -57,6 +57,7 @@ Print Assumptions c13_same_tx.
 (* values set by a before-hook are the values stored.  Local statements about the three functions
    involved (SetColumn on the model itself, the Create statement, the update payload map): *)
 Theorem c13_setcolumn_record : forall c i v s r,
+  x_setall (c_x c) = false ->
   c_dest c = DSelf -> sh_cont (c_shape c) <> CStruct -> nth_error (s_recs s) i = Some r ->
   nth_error (s_recs (set_column c i v s)) i = Some (mk_rec (m_id r) (m_tag r) v (m_nil r))
   /\ (forall j, j <> i -> nth_error (s_recs (set_column c i v s)) j = nth_error (s_recs s) j)
@@ -86,7 +87,7 @@ Definition t8 := mk_ty 8 RVal RPtr RPtr RVal RPtr RPtr RPtr RPtr RPtr.
 Definition leaf_ty i := mk_ty i RPtr RPtr RPtr RPtr RPtr RPtr RPtr RPtr RPtr.
 Definition w_mixed : op :=
   mk_op OCreate t8 (mk_shape CStruct true false) [mk_rec 0 101 7 false]
-        (no_assocs (leaf_ty 12, leaf_ty 13, leaf_ty 14)) false TxDefault [] [] KField 0 PVMapDb 0 [].
+        (no_assocs (leaf_ty 12, leaf_ty 13, leaf_ty 14)) false TxDefault [] [] KField 0 PVMapDb 0 [] no_opts.
 
 Theorem c13_log_refuted : exists o,
   goodk (o_shape o) (rkeys (o_recs o)) /\ o_fails o = [] /\ hooks_of (s_tr (run o)) <> expected_log o.
@@ -103,7 +104,7 @@ Print Assumptions c13_log_refuted.
 Definition t1 := mk_ty 1 RPtr RPtr RPtr RPtr RPtr RPtr RPtr RPtr RPtr.
 Definition w_setcol : op :=
   mk_op OUpdate t1 (mk_shape CStruct true false) [mk_rec 1 1 10 false]
-        (no_assocs (leaf_ty 12, leaf_ty 13, leaf_ty 14)) false TxDefault [] [1] KField 77 PVMapDb 0 [(TRecs, 1, 10)].
+        (no_assocs (leaf_ty 12, leaf_ty 13, leaf_ty 14)) false TxDefault [] [1] KField 77 PVMapDb 0 [(TRecs, 1, 10)] no_opts.
 
 Example c13_values_update_instance :
   s_err (run w_setcol) = []
@@ -115,7 +116,7 @@ Proof. vm_compute. repeat split. Qed.
 Definition w_ok : op :=
   mk_op OCreate t1 (mk_shape CSlice true false) [mk_rec 0 101 1 false; mk_rec 0 102 2 false]
         (mk_assocs (leaf_ty 12, leaf_ty 13, leaf_ty 14) [mk_rec 0 301 3 false] [mk_rec 0 201 1 false; mk_rec 0 202 2 false] [])
-        false TxDefault [9] [0] KField 0 PVMapDb 0 [].
+        false TxDefault [9] [0] KField 0 PVMapDb 0 [] no_opts.
 Example c13_ok_instance : op_ok w_ok /\ must_tx w_ok = true
   /\ length (hooks_of (s_tr (run w_ok))) = 12%nat /\ s_err (run w_ok) = [EInj 9] /\ s_tbl (run w_ok) = [].
 Proof.
